@@ -460,6 +460,95 @@ func (r *rewriter) rewriteSend(s *ast.SendStmt) ast.Stmt {
 	return &ast.ExprStmt{X: vrtCall("Send", s.Chan, do)}
 }
 
+// rewriteSelect turns
+//
+//	select { case v := <-a: A; case b <- x: B; default: D }
+//
+// into
+//
+//	if vrt.Cur() == nil { <the original statement> } else {
+//		vrtC0 := a; vrtC1 := b; vrtV1 := x
+//		switch vrt.Select(true, vrt.SelRecv(vrtC0), vrt.SelSend(vrtC1)) {
+//		case 0: v := vrt.RecvNow(vrtC0); A
+//		case 1: vrt.SendNow(vrtC1, func() { vrtC1 <- vrtV1 }); B
+//		case -1: D
+//		}
+//	}
+//
+// (break inside a clause leaves the switch exactly as it left the select).
+func (r *rewriter) rewriteSelect(x *ast.SelectStmt) ast.Stmt {
+	r.needVrt = true
+	r.st.ChanOps++
+	// a private copy of the statement for the free-running branch: print and re-parse
+	var buf bytes.Buffer
+	if err := format.Node(&buf, r.fset, x); err != nil {
+		r.err = fmt.Errorf("%s: select: %v", r.site(x.Pos()), err)
+		return x
+	}
+	// (parsed into the same file set: its positions lie beyond the real file, so no comment of the real
+	// file can be attached inside the copy)
+	cf, err := parser.ParseFile(r.fset, "", "package p\nfunc _() {\n"+buf.String()+"\n}", parser.SkipObjectResolution)
+	if err != nil {
+		r.err = fmt.Errorf("%s: select: re-parse: %v", r.site(x.Pos()), err)
+		return x
+	}
+	orig := cf.Decls[0].(*ast.FuncDecl).Body.List[0].(*ast.SelectStmt)
+	for _, c := range orig.Body.List {
+		cc := c.(*ast.CommClause)
+		cc.Body = r.stmts(cc.Body)
+	}
+	pre := &ast.BlockStmt{}
+	var selArgs []ast.Expr
+	hasDefault := "false"
+	sw := &ast.SwitchStmt{Body: &ast.BlockStmt{}}
+	idx := 0
+	for _, c := range x.Body.List {
+		cc := c.(*ast.CommClause)
+		body := r.stmts(cc.Body)
+		if cc.Comm == nil {
+			hasDefault = "true"
+			sw.Body.List = append(sw.Body.List, &ast.CaseClause{List: []ast.Expr{&ast.BasicLit{Kind: token.INT, Value: "-1"}}, Body: body})
+			continue
+		}
+		chID := ast.NewIdent(fmt.Sprintf("vrtC%d", idx))
+		var first ast.Stmt
+		switch cm := cc.Comm.(type) {
+		case *ast.SendStmt:
+			vID := ast.NewIdent(fmt.Sprintf("vrtV%d", idx))
+			pre.List = append(pre.List, &ast.AssignStmt{Lhs: []ast.Expr{chID, vID}, Tok: token.DEFINE, Rhs: []ast.Expr{r.expr(cm.Chan), r.expr(cm.Value)}})
+			selArgs = append(selArgs, vrtCall("SelSend", chID))
+			do := &ast.FuncLit{Type: &ast.FuncType{Params: &ast.FieldList{}}, Body: &ast.BlockStmt{List: []ast.Stmt{&ast.SendStmt{Chan: chID, Value: vID}}}}
+			first = &ast.ExprStmt{X: vrtCall("SendNow", chID, do)}
+		case *ast.ExprStmt:
+			u := cm.X.(*ast.UnaryExpr)
+			pre.List = append(pre.List, &ast.AssignStmt{Lhs: []ast.Expr{chID}, Tok: token.DEFINE, Rhs: []ast.Expr{r.expr(u.X)}})
+			selArgs = append(selArgs, vrtCall("SelRecv", chID))
+			first = &ast.ExprStmt{X: vrtCall("RecvNow", chID)}
+		case *ast.AssignStmt:
+			u := cm.Rhs[0].(*ast.UnaryExpr)
+			pre.List = append(pre.List, &ast.AssignStmt{Lhs: []ast.Expr{chID}, Tok: token.DEFINE, Rhs: []ast.Expr{r.expr(u.X)}})
+			selArgs = append(selArgs, vrtCall("SelRecv", chID))
+			fn := "RecvNow"
+			if len(cm.Lhs) == 2 {
+				fn = "RecvNow2"
+			}
+			first = &ast.AssignStmt{Lhs: cm.Lhs, Tok: cm.Tok, Rhs: []ast.Expr{vrtCall(fn, chID)}}
+		}
+		sw.Body.List = append(sw.Body.List, &ast.CaseClause{List: []ast.Expr{&ast.BasicLit{Kind: token.INT, Value: strconv.Itoa(idx)}}, Body: append([]ast.Stmt{first}, body...)})
+		idx++
+	}
+	// a thread that is being unwound gets -2: it leaves here (and the clause keeps the switch a
+	// terminating statement where the select was one)
+	sw.Body.List = append(sw.Body.List, &ast.CaseClause{Body: []ast.Stmt{
+		&ast.ExprStmt{X: vrtCall("SelectAbort")},
+		&ast.ExprStmt{X: &ast.CallExpr{Fun: ast.NewIdent("panic"), Args: []ast.Expr{strLit("vrt: unreachable")}}},
+	}})
+	sw.Tag = vrtCall("Select", append([]ast.Expr{ast.NewIdent(hasDefault)}, selArgs...)...)
+	pre.List = append(pre.List, sw)
+	cond := &ast.BinaryExpr{X: vrtCall("Cur"), Op: token.EQL, Y: ast.NewIdent("nil")}
+	return &ast.IfStmt{Cond: cond, Body: &ast.BlockStmt{List: []ast.Stmt{orig}}, Else: pre}
+}
+
 func (r *rewriter) memTarget(e ast.Expr) bool {
 	switch x := e.(type) {
 	case *ast.SelectorExpr, *ast.IndexExpr, *ast.StarExpr:
@@ -529,8 +618,7 @@ func (r *rewriter) stmt(s ast.Stmt) ast.Stmt {
 		x.Value = r.expr(x.Value)
 		return r.rewriteSend(x)
 	case *ast.SelectStmt:
-		r.err = fmt.Errorf("%s: select statement is not supported by the instrumenter", r.site(x.Pos()))
-		return s
+		return r.rewriteSelect(x)
 	case *ast.BlockStmt:
 		x.List = r.stmts(x.List)
 	case *ast.IfStmt:
